@@ -17,7 +17,20 @@ pub fn run_mode(env: &mut Env, c04_mode: bool) -> Outcome {
     let ctxrc = env.ctx.clone();
     let (cfg, params, net, packing, second_activation, n_inputs) = {
         let mut ctx = ctxrc.borrow_mut();
-        let cfg = gen_client_cfg(&mut ctx, c04_mode || ctx_unicode(env.case), crate::scen::nla_available());
+        let mut cfg = gen_client_cfg(&mut ctx, c04_mode || ctx_unicode(env.case), crate::scen::nla_available());
+        if c04_mode && ctx.chance("over_long_string", 1, 10) {
+            // over-long credentials or client name: the Client Info / Confirm Active PDU grows beyond what one MCS send
+            // data request can announce (16383 octets of user data); the client may refuse, it must not mis-frame
+            let n = *ctx.pick("over_long_units", &[8100usize, 8150, 8200, 12000, 16300, 16400, 20000, 32600]);
+            match ctx.choose("over_long_field", 4) {
+                0 => cfg.password = "p".repeat(n),
+                1 => cfg.user = "u".repeat(n),
+                2 => cfg.domain = "d".repeat(n),
+                _ => cfg.name = if ctx.chance("name_at_u16_edge", 1, 2) { "n".repeat(65136 + ctx.choose("name_edge", 12) as usize) } else { "n".repeat(2 * n) },
+            }
+            ctx.probe("over_long_string");
+            ctx.step_budget = 2_000_000;
+        }
         let selected = if cfg.nla && ctx.chance("select_hybrid", 3, 4) { 2 } else { 1 };
         let mut params = ServerParams::generate(&mut ctx, selected);
         if cfg.check_cert {
@@ -29,7 +42,7 @@ pub fn run_mode(env: &mut Env, c04_mode: bool) -> Outcome {
         let packing = match ctx.choose("packing", 4) { 0 => Packing::OnePerRecord, 1 => Packing::Coalesce, 2 => Packing::Split, _ => Packing::Mixed };
         let second = ctx.chance("second_activation", 1, 3);
         let n_inputs = ctx.choose("n_inputs", 4);
-        ctx.step_budget = 200_000;
+        ctx.step_budget = ctx.step_budget.max(200_000);
         (cfg, params, net, packing, second, n_inputs)
     };
     {
